@@ -4,3 +4,21 @@ claim("C19",
       "Every method of multi, multiCached, multiMetric, multiHistogramBucket, multiBaseReporters and both constructors is under a contract stating the exact sequence of child calls (one identical call per child, in registration order, nothing else) as a postcondition over a ghost call trace; loop invariants make this hold for any number of children and all argument values; frame obligations show nothing else is modified. All obligations are discharged by SMT solvers on every run from the current source.",
       "Assumes: children are non-nil; calls through the tally reporter interfaces are modelled as trace events that do not touch the multi reporter's state; Capabilities()/Reporting()/Tagging() of children are deterministic and effect-free; VC generator and solvers trusted (see evidence trusted_base).",
       "DESIGN.md §5 C19")
+
+claim("C18",
+      "contract-based deductive verification (govc: WP over go/ssa + z3/cvc5): one-event trace postconditions, bound-rendering case split",
+      "Every method of the StatsD reporter and its constructor is under contract: each Report* appends exactly one Statter call (Inc / Gauge(int64(v)) / TimingDuration) with the given name, value and configured sample rate and no statsd tags; histogram samples are one Inc on Sprintf(\"%s.%s-%s\", name, L, U) with L/U rendered by the bucket-string functions, whose contracts pin +Max -> \"infinity\", -Max -> \"-infinity\", otherwise Sprintf(bucketFmt, v) / Duration.String; NewReporter's defaults (rate 0 -> 1, precision 0 -> 6, bucketFmt = \"%.\"+Itoa(p)+\"f\"); Tagging()==false, Reporting()==true. Discharged for all names/values/bounds.",
+      "Clause-level N/A: 'two buckets whose bounds differ at that precision never share a stat name' needs the semantics of fmt %.Nf and Duration.String (both are deterministic uninterpreted functions here); only the structural part is proved. Statter calls are trace events (the client is not verified).",
+      "DESIGN.md §5 C18")
+
+claim("C15",
+      "contract-based deductive verification (govc: WP over go/ssa + z3/cvc5): abstract buffer view (byte string) on every transport method, fault paths included; fan-out trace invariants for the multi transport",
+      "TUDPTransport.Write/WriteByte/WriteString/Flush/Close/IsOpen/Read/ReadByte are under contract over the abstract view (buffer contents, closed flag): accepted writes append exactly the given bytes with the limit exact at 65000, Flush performs exactly one conn.Write of exactly the buffered bytes and empties the buffer whether or not the send failed and returns the send error, use after Close yields an error with no effect, Close is idempotent; TMultiUDPTransport.Write/Flush/Close/Open reach every destination once, in order, until one fails. The refused-write clause (nothing of an abandoned message may be sent later) FAILS on this tree and is recorded as a known finding (3 obligations).",
+      "Known finding listed in known_findings.json (refused write keeps the prefix buffered). net.UDPConn.Write is assumed to send one datagram with exactly the given bytes or fail; bytes.Buffer is modelled as an abstract byte string (assumed contracts). reporter.flush / generated client error paths are covered under C13/C14 only.",
+      "DESIGN.md §5 C15")
+
+claim("C10",
+      "contract-based deductive verification (govc: WP over go/ssa + z3/cvc5): exact trace postconditions (one delivery per Record, clock reads, instrumented call sequence)",
+      "timer.Record appends exactly one delivery (cached timer if present, else reporter.ReportTimer(name,tags,d)) before returning, for every duration; newTimer installs the in-memory sink when there is no reporter and the sink appends in order; Start reads the clock once; RecordStopwatch records now.Sub(start) through Record; Stopwatch.Stop forwards to its recorder; instrument Call.Exec performs exactly Start, f() once, Stop, then exactly one of err.Inc(1) / success.Inc(1) and returns f's error unchanged.",
+      "time.Now / Time.Sub are abstract (an arbitrary clock); calls through tally.Timer/Counter/StopwatchRecorder and the user function are trace events assumed not to touch tally state; dynamic dispatch from the StopwatchRecorder event to (*timer).RecordStopwatch is by the Go type system (meta-argument). That report passes emit no timer events is part of the scope.report contracts (C01/C04).",
+      "DESIGN.md §5 C10")
